@@ -13,6 +13,8 @@
 -/
 import ScalesModel.Adapter.E2E
 import ScalesModel.Proofs.TagPoolLemmas
+import ScalesModel.Adapter.SerialC02
+import ScalesModel.Props.C07
 namespace Scales.TagPool
 
 /-- **Specification level.**  The executable `spec` (the C11 clauses and the `own-reply` clause)
@@ -122,5 +124,258 @@ example : (comp.modelTrace ⟨2 ^ 24 - 1⟩
 example : comp.wf ⟨2 ^ 24 - 1⟩
       [.req .noev 0, .req .noev 0, .req .noev 0, .send, .send, .send,
        .process (-2) 4, .process (-2) 2, .process (-2) 2, .process (-2) 9, .process (-2) 3] = true := by decide
+
+/-! ### serial connections
+
+  On a serial connection the peer answers requests in the order it received them, one reply
+  per request frame (the server hypothesis of C02).  The reply a transaction reads is therefore
+  the reply to its own frame provided no *earlier* frame on the same connection is still
+  unanswered.  The ghost `owed` below lists the request frames written on the current
+  connection whose replies have not been consumed; it is reset whenever the connection is
+  replaced or dropped.  The theorem: in every reachable state `owed` is empty, or holds exactly
+  the transaction in flight (past its write) — so a consumed reply is the caller's own, and a
+  request abandoned by a timeout or fault never leaves a stale reply on a connection that a
+  later call will read. -/
+
+namespace SerialGhost
+open Scales.Serial Scales.Transport
+
+inductive SOp where
+  | openT (r : Conn)
+  | request (id : Nat) (dl : DL)
+  | io (o : IOOut)
+  | timeoutHere (r : Conn)
+  | close
+  deriving Repr, DecidableEq
+
+structure G where
+  s : Serial.St
+  owed : List Nat
+  deriving Repr, DecidableEq
+
+def G.init : G := ⟨Serial.St.init, []⟩
+
+/-- replies consumed in a step: the `.stream` deliveries -/
+def consumed (e : Eff) : List Nat := (e.dels.filter (fun p => p.2 == Resp.stream)).map (·.1)
+
+/-- one step of the transport with the ghost bookkeeping -/
+def G.step (g : G) : SOp → G
+  | .openT r =>
+    let (s', e) := g.s.openT r
+    ⟨s', if e.conns > 0 ∨ s'.sockOpen ≠ g.s.sockOpen then [] else g.owed⟩
+  | .request id dl =>
+    let (s', o) := g.s.request id dl
+    ⟨s', if o.eff.conns > 0 ∨ s'.sockOpen ≠ g.s.sockOpen then [] else g.owed ++ o.sent⟩
+  | .io o =>
+    let (s', out) := g.s.io o
+    ⟨s', if out.eff.conns > 0 ∨ s'.sockOpen ≠ g.s.sockOpen then []
+         else (g.owed ++ out.sent).filter (fun id => !(consumed out.eff).contains id)⟩
+  | .timeoutHere r =>
+    let (s', out) := g.s.timeoutHere r
+    ⟨s', if out.eff.conns > 0 ∨ s'.sockOpen ≠ g.s.sockOpen then [] else g.owed⟩
+  | .close => ⟨g.s.close, []⟩
+
+/-- what `owed` must be: the transaction in flight, once its frame has been written -/
+def owedOf (s : Serial.St) : List Nat :=
+  match s.processing with
+  | some t => if t.phase = .write then [] else [t.id]
+  | none => []
+
+structure GInv (g : G) : Prop where
+  k : g.s.sockOpen = true → g.s.openRes = true
+  j : ∀ t, g.s.processing = some t → g.s.sockOpen = true
+  owed : g.owed = owedOf g.s
+
+theorem GInv_init : GInv G.init := ⟨by simp [G.init, Serial.St.init], by simp [G.init, Serial.St.init], rfl⟩
+
+theorem GInv_step (g : G) (op : SOp) (h : GInv g) : GInv (g.step op) := by
+  obtain ⟨hk, hj, ho⟩ := h
+  obtain ⟨s, owed⟩ := g
+  obtain ⟨cs, so, ores, pr⟩ := s
+  simp only at hk hj ho
+  cases pr with
+  | none =>
+    subst ho
+    cases op with
+    | close => exact ⟨by simp [G.step, Serial.St.close], by simp [G.step, Serial.St.close], by simp [G.step, Serial.St.close, owedOf]⟩
+    | openT r =>
+      cases r <;> cases so <;> cases ores <;> cases cs <;> constructor <;>
+        simp_all [G.step, Serial.St.openT, Serial.St.openImpl, Serial.St.fault, Serial.St.state,
+          Serial.St.close, owedOf]
+    | request id dl =>
+      cases dl with
+      | none => cases so <;> constructor <;>
+          simp_all [G.step, Serial.St.request, Serial.St.txnFail, Serial.St.fault, Serial.St.state,
+            Serial.St.close, owedOf] <;> (try split) <;> simp_all [owedOf]
+      | future => cases so <;> constructor <;>
+          simp_all [G.step, Serial.St.request, Serial.St.txnFail, Serial.St.fault, Serial.St.state,
+            Serial.St.close, owedOf] <;> (try split) <;> simp_all [owedOf]
+      | past r => cases so <;> cases r <;> constructor <;>
+          simp_all [G.step, Serial.St.request, Serial.St.txnTimeout, Serial.St.fault, Serial.St.state,
+            Serial.St.close, owedOf] <;> (try split) <;> simp_all [owedOf]
+    | io o => constructor <;> simp_all [G.step, Serial.St.io, owedOf, consumed]
+    | timeoutHere r => constructor <;> simp_all [G.step, Serial.St.timeoutHere, owedOf]
+  | some t =>
+    have hso : so = true := hj t rfl
+    subst hso
+    have hor : ores = true := hk rfl
+    subst hor
+    subst ho
+    obtain ⟨tid, thd, tph⟩ := t
+    cases op with
+    | close => exact ⟨by simp [G.step, Serial.St.close], by simp [G.step, Serial.St.close], by simp [G.step, Serial.St.close, owedOf]⟩
+    | openT r => constructor <;> simp_all [G.step, Serial.St.openT, owedOf]
+    | request id dl => constructor <;> simp_all [G.step, Serial.St.request, owedOf]
+    | io o =>
+      cases o <;> cases tph <;> constructor <;>
+        simp_all [G.step, Serial.St.io, Serial.St.txnFail, Serial.St.fault, Serial.St.state,
+          Serial.St.close, owedOf, consumed] <;> (try split) <;> simp_all [owedOf]
+    | timeoutHere r =>
+      cases r <;> cases thd <;> cases tph <;> constructor <;>
+        simp_all [G.step, Serial.St.timeoutHere, Serial.St.txnTimeout, Serial.St.fault, Serial.St.state,
+          Serial.St.close, owedOf] <;> (try split) <;> simp_all [owedOf]
+
+def G.run (g : G) : List SOp → G
+  | [] => g
+  | op :: ops => (g.step op).run ops
+
+theorem GInv_run : ∀ (ops : List SOp) (g : G), GInv g → GInv (g.run ops) := by
+  intro ops
+  induction ops with
+  | nil => intro g h; exact h
+  | cons op ops ih => intro g h; exact ih _ (GInv_step g op h)
+
+end SerialGhost
+
+open SerialGhost Scales.Serial Scales.Transport in
+/-- **Serial connections: a consumed reply is the caller's own.**  After any history of opens,
+    requests (with or without deadline, also already expired), I/O outcomes, time-outs with
+    accepted or refused re-connects and closes: when a reply body is handed to request `id`, the
+    frames written on the current connection whose replies had not been consumed are exactly
+    `[id]` — no frame of an earlier, abandoned transaction is outstanding on it. -/
+theorem C02_serial_own_reply (ops : List SOp) (o : IOOut) (id : Nat)
+    (h : (id, Resp.stream) ∈ ((G.init.run ops).s.io o).2.eff.dels) : (G.init.run ops).owed = [id] := by
+  have hinv := GInv_run ops G.init GInv_init
+  generalize G.init.run ops = g at *
+  obtain ⟨_, _, ho⟩ := hinv
+  rw [ho]
+  unfold Serial.St.io at h
+  unfold owedOf
+  cases hp : g.s.processing with
+  | none => simp [hp] at h
+  | some t =>
+    simp only [hp] at h ⊢
+    cases o with
+    | raise => simp [Serial.St.txnFail] at h
+    | eof => simp [Serial.St.txnFail] at h
+    | ok =>
+      cases hph : t.phase <;> simp [hph] at h ⊢
+      exact h.symm
+
+open SerialGhost Scales.Serial in
+/-- a transaction that ended (reply, time-out, fault, refusal, close) leaves no unconsumed frame
+    on a connection that stays in use: the next transaction starts on a clean connection -/
+theorem C02_serial_abandon_clears (ops : List SOp) (h : (G.init.run ops).s.processing = none) :
+    (G.init.run ops).owed = [] := by
+  have hinv := GInv_run ops G.init GInv_init
+  rw [hinv.owed]; simp [owedOf, h]
+
+open Scales.Watermark in
+/-- Pool: a connection is never lent to two calls at once (C07's exclusivity theorem, which is
+    the pool's part of this property) -/
+theorem C02_pool_exclusive (cfg : Watermark.Cfg) (ops : List Watermark.Op) (c1 c2 sid : Nat)
+    (h1 : (runOps cfg Watermark.St.init ops).base.calls[c1]? = some (.started sid))
+    (h2 : (runOps cfg Watermark.St.init ops).base.calls[c2]? = some (.started sid)) : c1 = c2 :=
+  (C07_exclusive cfg ops c1 c2 sid h1 h2).1
+
+namespace SerialSpec
+open Scales.Serial Scales.Transport Scales.SerialC02
+
+structure Rel (a : SerialC02.Acc) (s : Serial.St) : Prop where
+  clean : a.dirty = false
+  infl : a.inflight = s.processing.map (·.id)
+  k : s.sockOpen = true → s.openRes = true
+  j : ∀ t, s.processing = some t → s.sockOpen = true
+
+theorem Rel_init : Rel {} Serial.St.init := ⟨rfl, rfl, by simp [Serial.St.init], by simp [Serial.St.init]⟩
+
+theorem Rel_step (a : SerialC02.Acc) (s : Serial.St) (op : Serial.Op) (h : Rel a s) :
+    Rel (a.after op (Serial.step () s op).2) (Serial.step () s op).1 := by
+  obtain ⟨hc, hi, hk, hj⟩ := h
+  obtain ⟨infl, dirty, idx⟩ := a
+  obtain ⟨cs, so, ores, pr⟩ := s
+  simp only at hc hi hk hj
+  subst hc
+  cases pr with
+  | none =>
+    simp only [Option.map_none] at hi
+    subst hi
+    cases op with
+    | look => exact ⟨by simp [SerialC02.Acc.after, Serial.step, Serial.stepOut, Serial.obsOf, SerialC02.respOf], by simp [SerialC02.Acc.after, Serial.step, Serial.stepOut, Serial.obsOf, SerialC02.respOf], hk, hj⟩
+    | close => exact ⟨rfl, rfl, by simp [Serial.step, stepOut, Serial.St.close], by simp [Serial.step, stepOut, Serial.St.close]⟩
+    | openT r =>
+      cases r <;> cases so <;> cases ores <;> cases cs <;> constructor <;>
+        simp_all [SerialC02.Acc.after, Serial.step, Serial.stepOut, Serial.obsOf, SerialC02.respOf, Serial.St.openT, Serial.St.openImpl,
+          Serial.St.fault, Serial.St.state, Serial.St.close, SerialC02.replaced]
+    | io o => constructor <;> simp_all [SerialC02.Acc.after, Serial.step, Serial.stepOut, Serial.obsOf, SerialC02.respOf, Serial.St.io]
+    | timeoutHere r => constructor <;>
+        simp_all [SerialC02.Acc.after, Serial.step, Serial.stepOut, Serial.obsOf, SerialC02.respOf, Serial.St.timeoutHere]
+    | req id dl =>
+      cases dl with
+      | none => cases so <;> constructor <;>
+          simp_all [SerialC02.Acc.after, Serial.step, Serial.stepOut, Serial.obsOf, SerialC02.respOf, Serial.St.request, Serial.St.txnFail,
+            Serial.St.fault, Serial.St.state, Serial.St.close, SerialC02.replaced] <;> (try split) <;> simp_all
+      | future => cases so <;> constructor <;>
+          simp_all [SerialC02.Acc.after, Serial.step, Serial.stepOut, Serial.obsOf, SerialC02.respOf, Serial.St.request, Serial.St.txnFail,
+            Serial.St.fault, Serial.St.state, Serial.St.close, SerialC02.replaced] <;> (try split) <;> simp_all
+      | past r => cases so <;> cases r <;> constructor <;>
+          simp_all [SerialC02.Acc.after, Serial.step, Serial.stepOut, Serial.obsOf, SerialC02.respOf, Serial.St.request, Serial.St.txnTimeout,
+            Serial.St.fault, Serial.St.state, Serial.St.close, SerialC02.replaced] <;> (try split) <;> simp_all
+  | some t =>
+    have hso : so = true := hj t rfl
+    subst hso
+    have hor : ores = true := hk rfl
+    subst hor
+    simp only [Option.map_some] at hi
+    subst hi
+    obtain ⟨tid, thd, tph⟩ := t
+    cases op with
+    | look => exact ⟨by simp [SerialC02.Acc.after, Serial.step, Serial.stepOut, Serial.obsOf, SerialC02.respOf], by simp [SerialC02.Acc.after, Serial.step, Serial.stepOut, Serial.obsOf, SerialC02.respOf], hk, hj⟩
+    | close => exact ⟨rfl, rfl, by simp [Serial.step, stepOut, Serial.St.close], by simp [Serial.step, stepOut, Serial.St.close]⟩
+    | openT r => constructor <;>
+        simp_all [SerialC02.Acc.after, Serial.step, Serial.stepOut, Serial.obsOf, SerialC02.respOf, Serial.St.openT, Serial.St.state, SerialC02.replaced]
+    | req id dl => constructor <;>
+        simp_all [SerialC02.Acc.after, Serial.step, Serial.stepOut, Serial.obsOf, SerialC02.respOf, Serial.St.request, Serial.St.state, SerialC02.replaced]
+    | io o =>
+      cases o <;> cases tph <;> constructor <;>
+        simp_all [SerialC02.Acc.after, Serial.step, Serial.stepOut, Serial.obsOf, SerialC02.respOf, Serial.St.io, Serial.St.txnFail,
+          Serial.St.fault, Serial.St.state, Serial.St.close, SerialC02.replaced]
+    | timeoutHere r =>
+      cases r <;> cases thd <;> cases tph <;> cases cs <;> constructor <;>
+        simp_all [SerialC02.Acc.after, Serial.step, Serial.stepOut, Serial.obsOf, SerialC02.respOf, Serial.St.timeoutHere, Serial.St.txnTimeout,
+          Serial.St.fault, Serial.St.state, Serial.St.close, SerialC02.replaced]
+
+theorem specGo_ok : ∀ (ops : List Serial.Op) (a : SerialC02.Acc) (s : Serial.St), Rel a s →
+    SerialC02.specGo a (SerialC02.comp.trace () s ops) = .ok := by
+  intro ops
+  induction ops with
+  | nil => intros; rfl
+  | cons op ops ih =>
+    intro a s h
+    simp only [TComp.trace, SerialC02.comp, SerialC02.specGo]
+    have h' := Rel_step a s op h
+    have hv : SerialC02.specObs a (Serial.step () s op).2 = .ok := by simp [SerialC02.specObs, h.clean]
+    rw [hv]
+    exact ih _ _ h'
+
+end SerialSpec
+
+open SerialSpec in
+/-- the serial transport model satisfies the C02 clause evaluated by component `serial2` on
+    every operation list (no hypothesis needed): a connection that saw an abandoned transaction
+    never carries a later request -/
+theorem C02_serial_model_satisfies_spec (ops : List Serial.Op) :
+    SerialC02.spec () (SerialC02.comp.modelTrace () ops) = .ok :=
+  specGo_ok ops {} Serial.St.init Rel_init
 
 end Scales.TagPool
